@@ -8,11 +8,11 @@ head=sh('git -C /repo rev-parse --short HEAD').stdout.strip()
 if not os.path.isdir(VS): sh(f'git -C /repo worktree add --detach {VS} HEAD -q')
 log=open('/tmp/seed/verify.log').read() if os.path.exists('/tmp/seed/verify.log') else ''
 for prop in ['C%02d'%i for i in range(1,21)]:
-    for rnd,m in [('_out','m1'),('_out','m2'),('_out','m1r'),('_out','m2r'),('_out2','m1'),('_out2','m2'),('_out3','m1'),('_out3','m2'),('_out4','m1'),('_out4','m2'),('_out5','m1'),('_out5','m2'),('_out6','m1'),('_out6','m2'),('_out7','m1'),('_out7','m2')]:
+    for rnd,m in [('_out','m1'),('_out','m2'),('_out','m1r'),('_out','m2r'),('_out2','m1'),('_out2','m2'),('_out3','m1'),('_out3','m2'),('_out4','m1'),('_out4','m2'),('_out5','m1'),('_out5','m2'),('_out6','m1'),('_out6','m2'),('_out7','m1'),('_out7','m2'),('_out8','m1'),('_out8','m2')]:
         src=f'/tmp/seed/{prop}/{rnd}/{m}'
         if not os.path.isdir(src): continue
         if rnd=='_out' and m in ('m1','m2') and os.path.isdir(f'/tmp/seed/{prop}/_out/{m}r'): continue
-        sid=f'{prop}-{m[:2]}' if rnd=='_out' else (f"{prop}-m{int(m[1])+2}" if rnd=='_out2' else (f"{prop}-m{int(m[1])+4}" if rnd=='_out3' else (f"{prop}-m{int(m[1])+6}" if rnd=='_out4' else (f"{prop}-m{int(m[1])+8}" if rnd=='_out5' else (f"{prop}-m{int(m[1])+10}" if rnd=='_out6' else f"{prop}-m{int(m[1])+12}")))))
+        sid=f'{prop}-{m[:2]}' if rnd=='_out' else (f"{prop}-m{int(m[1])+2}" if rnd=='_out2' else (f"{prop}-m{int(m[1])+4}" if rnd=='_out3' else (f"{prop}-m{int(m[1])+6}" if rnd=='_out4' else (f"{prop}-m{int(m[1])+8}" if rnd=='_out5' else (f"{prop}-m{int(m[1])+10}" if rnd=='_out6' else (f"{prop}-m{int(m[1])+12}" if rnd=='_out7' else f"{prop}-m{int(m[1])+14}"))))))
         dst=f'/verif/seeded/{sid}'
         sh(f'cd {VS} && git reset -q --hard {head} && git clean -fdq -e target')
         r=sh(f'cd {VS} && git apply --3way {src}/patch.diff && git reset -q && git diff')
@@ -25,7 +25,7 @@ for prop in ['C%02d'%i for i in range(1,21)]:
         notes=open(f'{src}/notes.md').read() if os.path.exists(f'{src}/notes.md') else ''
         open(f'{dst}/notes.md','w').write(notes)
         meta={'id':sid,'property':prop,'base_commit':head,
-              'origin':'independent sub-agent given only the property text and a scratch worktree'+(' (second round: told which first-round ideas to avoid)' if rnd=='_out2' else (' (third round: told which earlier ideas to avoid, asked for unusual phrasings / rare states / profile-specific / multi-file changes)' if rnd=='_out3' else (' (fourth round: as the third, plus optimisations wrong in rare states, long-lived process state, shared helpers, integer boundaries, profile differences)' if rnd=='_out4' else (' (fifth round: low-level helpers outside the anchored files, container and index boundaries, initialisation, feature combinations, unusual but valid protocol text, refactors that change an invariant)' if rnd=='_out5' else (' (sixth round: signed arithmetic, Ord / Eq / Hash implementations, edge masks for one colour, constants read only at extremes, error paths, cooperating edits, unsafe preconditions)' if rnd=='_out6' else (' (seventh round: told all earlier ideas, asked for a different kind of mistake)' if rnd=='_out7' else '')))))),
+              'origin':'independent sub-agent given only the property text and a scratch worktree'+(' (second round: told which first-round ideas to avoid)' if rnd=='_out2' else (' (third round: told which earlier ideas to avoid, asked for unusual phrasings / rare states / profile-specific / multi-file changes)' if rnd=='_out3' else (' (fourth round: as the third, plus optimisations wrong in rare states, long-lived process state, shared helpers, integer boundaries, profile differences)' if rnd=='_out4' else (' (fifth round: low-level helpers outside the anchored files, container and index boundaries, initialisation, feature combinations, unusual but valid protocol text, refactors that change an invariant)' if rnd=='_out5' else (' (sixth round: signed arithmetic, Ord / Eq / Hash implementations, edge masks for one colour, constants read only at extremes, error paths, cooperating edits, unsafe preconditions)' if rnd=='_out6' else (' (seventh round: told all earlier ideas, asked for a different kind of mistake)' if rnd=='_out7' else (' (eighth round: one change per property, told the titles of all earlier changes, asked for a different mechanism and source location)' if rnd=='_out8' else ''))))))),
               'files_touched':sorted(set(re.findall(r'^\+\+\+ b/(\S+)',r.stdout,re.M))),
               'needs_to_manifest':'see notes.md (trigger section)',
               'confirmed_by':'tools/verify_seed.sh: repository suite with the change 181 passed / 0 failed; demonstration fails with the change and passes without it (scratch worktree /tmp/vs)'}
